@@ -27,3 +27,30 @@ reg(PropertySpec(
                  "fixed schedule: exactness of the iteration count is proved over R on the grid beta = k/n; the floating-point accumulation is covered by the bounded stand-in only"],
     miss=["termination of third-party kernels", "floating-point accumulation beyond the bounded n_steps range"],
 ))
+
+reg(PropertySpec(
+    "C07", "Adaptive temperature steps meet the ESS target and are maximal",
+    functions=[f"{SMC}:SMCSampler.current_target_efficiency", f"{SMC}:SMCSampler.determine_beta"],
+    native=_lazy("checks.native_smc", "native_C07"),
+    technique="contract-based deductive verification: bisection loop invariant (bracket) on the real determine_beta, z3; ESS/IW identities in Lean; bounded native scan of the ESS curve",
+    assumptions=["'largest' is decided as the bracket left by the bisection: E(beta_star) >= target and E(beta_max) < target with 0 < beta_max - beta_star <= tolerance; it is the supremum only if the ESS curve is non-increasing (hypothesis, not proved)",
+                 "callee contracts log_weights (= IW + const) and effective_sample_size (= ESS) are used modularly; their bodies are verified against the Lean spec under C02/C09"],
+    miss=["non-monotone ESS curves are only bracketed"],
+))
+
+reg(PropertySpec(
+    "C08", "SMC evidence is the accumulated product of incremental ratios",
+    functions=[f"{SMC}:SMCSampler.sample"],
+    native=_lazy("checks.native_smc", "native_C08"),
+    technique="contract-based deductive verification: ghost head-population + series-sum invariants on the real SMCSampler.sample loop (z3); ratio/variance formulas in Lean; bounded native recomputation",
+    assumptions=["callee contracts log_evidence_ratio = LER, log_evidence_ratio_variance = LERV, resample, mutate, to_standard_samples used modularly"],
+))
+
+reg(PropertySpec(
+    "C18", "The diagnostic history is a faithful record of the run",
+    functions=[f"{SMC}:SMCSampler.sample"],
+    native=_lazy("checks.native_smc", "native_C18"),
+    technique="contract-based deductive verification: series-length and stored-population invariants on the real SMCSampler.sample loop incl. the resumed path (z3); bounded native recomputation",
+    assumptions=["resumed path: the checkpoint satisfies the loop invariant of the run that wrote it (same sampling arguments), which is the invariant proved for that run",
+                 "kernel mutate() appends exactly one acceptance entry per call (MutateModel)"],
+))
